@@ -680,6 +680,38 @@ def activate (s : State) (p : Proposal) : State :=
            inactive := removeQ (p.depositEnd, p.id) s.inactive,
            active := insertQ (activationQueueTime s p, p.id) s.active }
 
+/-- the locals of `ActivateVotingPeriod`: the store, the proposal it received BY VALUE, `startTime`, `votingPeriod`, `endTime` -/
+structure ActLocals where
+  s : State
+  p : Proposal
+  start : Nat := 0
+  period : Nat := 0
+  endT : Nat := 0
+
+/-- one top-level statement of `ActivateVotingPeriod`, by its regenerated tag -/
+def activateStep (l : ActLocals) (tag : String) : ActLocals :=
+  if tag == "startTime=blockTime" then { l with start := l.s.time }
+  else if tag == "setVotingStart" then { l with p := { l.p with votingStart := l.start } }
+  else if tag == "periodByExpedited" then
+    { l with period := if l.p.expedited then l.s.params.expVotingPeriod else l.s.params.votingPeriod }
+  else if tag == "customPeriod" then
+    -- `GetCustomMsgVotingPeriod(ctx, votingPeriod, proposal)`: its body is read separately (`customPeriodLookupOk`, `periodLookupType`)
+    (if customPeriodLookupOk then
+      match getCustom l.s.custom (propTypeP l.p.msgs) with
+      | some c => { l with period := c.votingPeriod }
+      | none => l
+     else l)
+  else if tag == "endTime=start+period" then { l with endT := l.p.votingStart + l.period }
+  else if tag == "setVotingEnd" then { l with p := { l.p with votingEnd := l.endT } }
+  else if tag == "setStatusVoting" then { l with p := { l.p with status := .voting } }
+  else if tag == "setProposal" then { l with s := { l.s with props := putProp l.s.props l.p } }
+  else if tag == "removeInactive" then { l with s := { l.s with inactive := removeQ (l.p.depositEnd, l.p.id) l.s.inactive } }
+  else if tag == "setActive:votingEnd" then { l with s := { l.s with active := insertQ (l.p.votingEnd, l.p.id) l.s.active } }
+  else l
+
+/-- `ActivateVotingPeriod`, statement by statement in SOURCE ORDER (`activateSteps` is regenerated from the AST on every run) -/
+def activateRun (s : State) (p : Proposal) : State := (activateSteps.foldl activateStep { s := s, p := p }).s
+
 /-- `proposal.GetMinDepositFromParams(params)` -/
 def defaultMin (s : State) (expedited : Bool) : Nat :=
   if expedited then s.params.expMinDeposit else s.params.minDeposit
@@ -715,7 +747,7 @@ def depStep (who : Addr) (amt : Nat) (l : DepLocals) (tag : String) : DepLocals 
   else if tag == "setProposal" then { l with s := { l.s with props := putProp l.s.props l.p } }
   else if tag == "msgMin" then { l with min := minForMsgs l.s.custom (l.min.fx.getD 0) l.p.msgs }
   else if tag == "activate" then
-    (if l.p.status == .deposit && reaches l.p.total l.min then { l with s := activate l.s l.p } else l)
+    (if l.p.status == .deposit && reaches l.p.total l.min then { l with s := activateRun l.s l.p } else l)
   else if tag == "setDeposit" then
     { l with s := { l.s with deps := addDep l.s.deps l.p.id who amt, paid := l.s.paid ++ [⟨l.p.id, who, amt⟩] } }
   else l
@@ -736,19 +768,63 @@ def addDeposit (s : State) (pid : Nat) (who : Addr) (amt : Nat) : Except String 
     if getBal s.bal who < amt then .error "err:funds" else
     .ok (depositRun s p who amt)
 
-/-- `MsgSubmitProposal` -/
+/-- locals of the SDK's `SubmitProposal`: the store, `proposalID`, `submitTime`, `depositPeriod`, the new proposal, the error
+returned so far -/
+structure SubmitLocals where
+  s : State
+  id : Nat := 0
+  submitTime : Nat := 0
+  depositPeriod : Nat := 0
+  p : Option Proposal := none
+  err : Option String := none
+
+/-- the checks of the SDK's loop over the proposal messages that the model keeps in the one bit `Msg.wellFormed`
+(`ValidateBasic`, exactly one signer, that signer is the gov account, a handler is routed, the dry run of a legacy content):
+all of them are in the regenerated loop body -/
+def submitLoopChecks : Bool :=
+  sdkSubmitLoop.contains "validateBasic" && sdkSubmitLoop.contains "oneSigner" && sdkSubmitLoop.contains "signerIsGov" &&
+  sdkSubmitLoop.contains "routable" && sdkSubmitLoop.contains "legacyDryRun"
+
+/-- one top-level statement of the SDK's `SubmitProposal`, by its regenerated tag -/
+def submitStepI (proposer : Addr) (msgs : List Msg) (expedited : Bool) (l : SubmitLocals) (tag : String) : SubmitLocals :=
+  if l.err.isSome then l else
+  if tag == "msgLoop" then
+    (if submitLoopChecks && !msgs.all (·.wellFormed) then { l with err := some "err:msg" } else l)
+  else if tag == "nextId" then { l with id := l.s.nextId, s := { l.s with nextId := l.s.nextId + 1 } }
+  else if tag == "submitTime=blockTime" then { l with submitTime := l.s.time }
+  else if tag == "depositPeriod=maxDepositPeriod" then { l with depositPeriod := l.s.params.maxDepositPeriod }
+  else if tag == "newProposal(depositEnd=submitTime+depositPeriod)" then
+    { l with p := some { id := l.id, msgs := msgs, proposer := proposer, status := .deposit, total := 0,
+                         depositEnd := l.submitTime + l.depositPeriod, votingStart := 0, votingEnd := 0,
+                         expedited := expedited } }
+  else if tag == "setProposal" then
+    (match l.p with
+     | some p => { l with s := { l.s with props := l.s.props ++ [p] } }
+     | none => l)
+  else if tag == "inactiveQueueSet:depositEnd" then
+    (match l.p with
+     | some p => { l with s := { l.s with inactive := insertQ (p.depositEnd, p.id) l.s.inactive } }
+     | none => l)
+  else l
+
+/-- `Keeper.SubmitProposal` of the SDK, statement by statement in SOURCE ORDER (`sdkSubmitSteps` is regenerated from the module
+cache on every run): the new store and the id of the stored proposal -/
+def sdkSubmitRun (s : State) (proposer : Addr) (msgs : List Msg) (expedited : Bool) : Except String (State × Nat) :=
+  let l := sdkSubmitSteps.foldl (submitStepI proposer msgs expedited) { s := s }
+  match l.err with
+  | some e => .error e
+  | none => .ok (l.s, l.id)
+
+/-- `MsgSubmitProposal` (fx message server): one type, the initial deposit against the scaled minimum, then the SDK's
+`SubmitProposal`, then `AddDeposit` of the initial deposit -/
 def submit (s : State) (proposer : Addr) (msgs : List Msg) (initial : Nat) (expedited : Bool) : Except String State :=
   if !checkMsgs msgs then .error "err:type" else
   if s.params.minInitialDepositRatio != 0 &&
       (initial == 0 || initial < mulRound (defaultMin s expedited) s.params.minInitialDepositRatio) then
     .error "err:small" else
-  if !msgs.all (·.wellFormed) then .error "err:msg" else
-  let p : Proposal := { id := s.nextId, msgs := msgs, proposer := proposer, status := .deposit, total := 0,
-                        depositEnd := s.time + s.params.maxDepositPeriod, votingStart := 0, votingEnd := 0,
-                        expedited := expedited }
-  let s1 := { s with nextId := s.nextId + 1, props := s.props ++ [p],
-                     inactive := insertQ (p.depositEnd, p.id) s.inactive }
-  addDeposit s1 p.id proposer initial
+  match sdkSubmitRun s proposer msgs expedited with
+  | .error e => .error e
+  | .ok (s1, id) => addDeposit s1 id proposer initial
 
 /-- `MsgDeposit` -/
 def deposit (s : State) (pid : Nat) (who : Addr) (amt : Nat) : Except String State :=
@@ -785,18 +861,213 @@ def cancel (s : State) (pid : Nat) (who : Addr) : Except String State :=
                    settled := s.settled ++ (depsOf s.deps pid).map
                      (fun d => ⟨d.pid, d.who, d.amt, .cancel (d.amt - (d.amt - mulTrunc d.amt s.params.cancelRatio))⟩) }
 
+/-! ## the SDK keeper functions, statement by statement (round 4)
+
+`CancelProposal`, `DeleteProposal`, `deleteVotes`, `ChargeDeposit`, `RefundAndDeleteDeposits` and `DeleteAndBurnDeposits` are
+code of the Cosmos SDK version that `/repo/go.mod` selects; their statement lists are regenerated from the module cache
+(`sdkCancelSteps`, `sdkDeleteProposalSteps`, `sdkDeleteVotesSteps`, `sdkChargeSteps`, `sdkChargeBody`, `sdkChargeCoin`,
+`sdkChargeDest`, `sdkRefundCallback`, `sdkBurnSteps`, `sdkBurnCallback`) and interpreted here, tag by tag in source order.
+`Proofs/C15Sdk.lean` proves the interpreted runs equal to the one-piece functions above (`cancel`, `refundDeposits`,
+`burnDeposits`) for the lists the source has now; `step` runs `cancelRun`, the end-blocker (`dropInactive`, `finishTally`) runs
+`refundRun` / `burnRun`, `AddDeposit`'s activation step runs `activateRun`. -/
+
+/-- locals of `DeleteProposal` / `CancelProposal`: the store, the local `proposal`, the error returned so far -/
+structure SdkLocals where
+  s : State
+  p : Option Proposal := none
+  err : Option String := none
+
+/-- one top-level statement of `DeleteProposal` -/
+def deleteProposalStep (pid : Nat) (l : SdkLocals) (tag : String) : SdkLocals :=
+  if l.err.isSome then l else
+  if tag == "getProposal" then
+    match findProp l.s.props pid with
+    | none => { l with err := some "err:notfound" }
+    | some p => { l with p := some p }
+  else
+    match l.p with
+    | none => l
+    | some p =>
+      -- `DepositEndTime` is set at submission; `VotingEndTime` is nil before activation and no entry `(0, pid)` exists then
+      if tag == "removeInactive" then { l with s := { l.s with inactive := removeQ (p.depositEnd, pid) l.s.inactive } }
+      else if tag == "removeActive" then { l with s := { l.s with active := removeQ (p.votingEnd, pid) l.s.active } }
+      else if tag == "removeProposal" then { l with s := { l.s with props := dropProp l.s.props pid } }
+      else l
+
+/-- `DeleteProposal`, statement by statement -/
+def deleteProposalRun (pid : Nat) (s : State) : State :=
+  (sdkDeleteProposalSteps.foldl (deleteProposalStep pid) { s := s }).s
+
+/-- `deleteVotes` -/
+def deleteVotesRun (pid : Nat) (s : State) : State :=
+  if sdkDeleteVotesSteps.contains "rangeOfProposal" && sdkDeleteVotesSteps.contains "clearVotes" then
+    { s with votes := votesNot s.votes pid } else s
+
+/-- the coin loop of `ChargeDeposit` is the expected one: `burnAmount := trunc(amount·rate)`, `remaining += amount −
+burnAmount`, `charges += burnAmount` -/
+def chargeCoinOk : Bool :=
+  sdkChargeCoin == ["burnAmount=trunc(amount*rate)", "remaining+=amount-burnAmount", "charges+=burnAmount"]
+
+/-- locals of `ChargeDeposit`: module balance, account balances, `remainingAmount` of the current deposit,
+`cancellationCharges`, a failed bank transfer -/
+structure ChargeLocals where
+  g : Nat
+  b : List (Addr × Nat)
+  keep : Nat := 0
+  chg : Nat := 0
+  failed : Bool := false
+
+/-- one statement of the body of the loop over the deposits -/
+def chargeBodyStep (rate : Nat) (d : Dep) (l : ChargeLocals) (tag : String) : ChargeLocals :=
+  if l.failed then l else
+  if tag == "remaining0" then { l with keep := 0 }
+  else if tag == "coinLoop" then
+    -- one coin per deposit (one deposit denom); for a rate ≤ 1 the charge `amount − (amount − burnAmount)` is `burnAmount`
+    if chargeCoinOk then
+      { l with keep := l.keep + (d.amt - mulTrunc d.amt rate), chg := l.chg + (d.amt - (d.amt - mulTrunc d.amt rate)) }
+    else l
+  else if tag == "refundRemaining" then
+    if l.g < l.keep then { l with failed := true } else { l with g := l.g - l.keep, b := credit l.b d.who l.keep }
+  else l
+
+/-- the loop over the deposits of the proposal -/
+def chargeRunLoop (rate : Nat) : List Dep → ChargeLocals → ChargeLocals
+  | [], l => l
+  | d :: r, l => chargeRunLoop rate r (sdkChargeBody.foldl (chargeBodyStep rate d) l)
+
+/-- what the switch over the destination does with the charges: the first case whose condition holds -/
+def chargeDestAct (dest : Nat) : List String → String
+  | [] => "none"
+  | c :: r =>
+    if c == "destAddress == \"\" => burn" then (if dest == 0 then "burn" else chargeDestAct dest r)
+    else if c == "distributionAddress.String() == destAddress => fundCommunityPool" then
+      (if dest == 1 then "fundCommunityPool" else chargeDestAct dest r)
+    else if c == "default => sendToDest" then "sendToDest"
+    else chargeDestAct dest r
+
+/-- one top-level statement of `ChargeDeposit(proposalID, params.ProposalCancelDest, params.ProposalCancelRatio)`;
+`none` = a bank transfer failed -/
+def chargeTopStep (pid : Nat) (acc : Option (State × ChargeLocals)) (tag : String) : Option (State × ChargeLocals) :=
+  match acc with
+  | none => none
+  | some (s, l) =>
+    if tag == "depositLoop" then
+      let l' := chargeRunLoop s.params.cancelRatio (depsOf s.deps pid) l
+      if l'.failed then none else
+      some ({ s with gov := l'.g, bal := l'.b,
+                     deps := if sdkChargeBody.contains "removeDeposit" then depsNot s.deps pid else s.deps,
+                     settled := s.settled ++ (depsOf s.deps pid).map
+                       (fun d => ⟨d.pid, d.who, d.amt, .cancel (d.amt - (d.amt - mulTrunc d.amt s.params.cancelRatio))⟩) }, l')
+    else if tag == "payCharges" then
+      if s.gov < l.chg then none else
+      let act := chargeDestAct s.params.cancelDest sdkChargeDest
+      some ({ s with gov := s.gov - l.chg,
+                     bal := if act == "sendToDest" && s.params.cancelDest ≥ 2 then credit s.bal (s.params.cancelDest - 2) l.chg else s.bal,
+                     burned := if act == "burn" then s.burned + l.chg else s.burned,
+                     charged := if act == "fundCommunityPool" then s.charged + l.chg else s.charged }, l)
+    else some (s, l)
+
+/-- `ChargeDeposit`, top-level statements in source order -/
+def chargeDepositRun (pid : Nat) (s : State) : Option State :=
+  (sdkChargeSteps.foldl (chargeTopStep pid) (some (s, { g := s.gov, b := s.bal }))).map (·.1)
+
+/-- one top-level statement of `CancelProposal` -/
+def cancelStepI (pid : Nat) (who : Addr) (l : SdkLocals) (tag : String) : SdkLocals :=
+  if l.err.isSome then l else
+  if tag == "getProposal" then
+    match findProp l.s.props pid with
+    | none => { l with err := some "err:notfound" }
+    | some p => { l with p := some p }
+  else
+    match l.p with
+    | none => l
+    | some p =>
+      if tag == "checkProposer" then (if p.proposer != who then { l with err := some "err:proposer" } else l)
+      else if tag == "checkOpen" then
+        (if !(p.status == .deposit || p.status == .voting) then { l with err := some "err:inactive" } else l)
+      else if tag == "checkNotEnded" then
+        (if p.status == .voting && p.votingEnd < l.s.time then { l with err := some "err:ended" } else l)
+      else if tag == "chargeDeposit" then
+        match chargeDepositRun pid l.s with
+        | none => { l with err := some "err:funds" }
+        | some s' => { l with s := s' }
+      else if tag == "deleteVotesIfStarted" then (if p.status == .voting then { l with s := deleteVotesRun pid l.s } else l)
+      else if tag == "deleteProposal" then { l with s := deleteProposalRun pid l.s }
+      else l
+
+/-- `MsgCancelProposal` → `CancelProposal`, statement by statement in the order the SDK source has -/
+def cancelRun (s : State) (pid : Nat) (who : Addr) : Except String State :=
+  let l := sdkCancelSteps.foldl (cancelStepI pid who) { s := s }
+  match l.err with
+  | some e => .error e
+  | none => .ok l.s
+
+/-- the callback of the `IterateDeposits` walk of `RefundAndDeleteDeposits` for one deposit: (module balance, balances,
+record removed, failed) -/
+def refundCallback (d : Dep) (acc : Nat × List (Addr × Nat) × Bool × Bool) (tag : String) : Nat × List (Addr × Nat) × Bool × Bool :=
+  let (g, b, removed, failed) := acc
+  if failed then acc else
+  if tag == "send" then (if g < d.amt then (g, b, removed, true) else (g - d.amt, credit b d.who d.amt, removed, false))
+  else if tag == "remove" then (g, b, true, failed)
+  else acc
+
+/-- the walk: every deposit of the proposal in key order; `none` = a transfer fails; the flag says whether every visited
+record was removed -/
+def refundWalk : List Dep → Nat → List (Addr × Nat) → Option (Nat × List (Addr × Nat) × Bool)
+  | [], g, b => some (g, b, true)
+  | d :: r, g, b =>
+    match sdkRefundCallback.foldl (refundCallback d) (g, b, false, false) with
+    | (g', b', removed, failed) =>
+      if failed then none else
+      match refundWalk r g' b' with
+      | none => none
+      | some (g'', b'', rm) => some (g'', b'', removed && rm)
+
+/-- `RefundAndDeleteDeposits`, interpreted -/
+def refundRun (pid : Nat) (s : State) : Except Err State :=
+  match refundWalk (depsOf s.deps pid) s.gov s.bal with
+  | none => .error (.halt "refund: insufficient module balance")
+  | some (g, b, rm) =>
+    .ok { s with gov := g, bal := b, deps := if rm then depsNot s.deps pid else s.deps,
+                 settled := s.settled ++ (depsOf s.deps pid).map (fun d => ⟨d.pid, d.who, d.amt, .refund⟩) }
+
+/-- the walk of `DeleteAndBurnDeposits`: (`coinsToBurn`, every visited record removed) -/
+def burnWalk : List Dep → Nat × Bool
+  | [] => (0, true)
+  | d :: r =>
+    let (sum, rm) := burnWalk r
+    ((if sdkBurnCallback.contains "accumulate" then d.amt else 0) + sum, sdkBurnCallback.contains "remove" && rm)
+
+/-- `DeleteAndBurnDeposits`, interpreted: `coinsToBurn := 0`, the walk, one `BurnCoins` of the sum -/
+def burnRun (pid : Nat) (s : State) : Except Err State :=
+  let step (acc : Except Err (State × Nat)) (tag : String) : Except Err (State × Nat) :=
+    match acc with
+    | .error e => .error e
+    | .ok (s, sum) =>
+      if tag == "sum0" then .ok (s, 0)
+      else if tag == "walk" then
+        let (w, rm) := burnWalk (depsOf s.deps pid)
+        .ok ({ s with deps := if rm then depsNot s.deps pid else s.deps,
+                      settled := s.settled ++ (depsOf s.deps pid).map (fun d => ⟨d.pid, d.who, d.amt, .burn⟩) }, sum + w)
+      else if tag == "burnSum" then
+        if s.gov < sum then .error (.halt "burn: insufficient module balance")
+        else .ok ({ s with gov := s.gov - sum, burned := s.burned + sum }, sum)
+      else .ok (s, sum)
+  match sdkBurnSteps.foldl step (.ok (s, 0)) with
+  | .error e => .error e
+  | .ok (s', _) => .ok s'
+
 /-! ## end-blocker -/
 
 /-- inactive queue entry: delete the proposal, refund or burn its deposits -/
 def dropInactive (pid : Nat) (s : State) : Except Err State :=
   match findProp s.props pid with
   | none => .error (.halt "inactive queue: proposal not found")
-  | some p =>
-    let s1 := { s with props := dropProp s.props pid,
-                       inactive := removeQ (p.depositEnd, pid) s.inactive,
-                       active := removeQ (p.votingEnd, pid) s.active }
+  | some _ =>
+    -- `keeper.DeleteProposal(ctx, proposal.Id)`: the SDK function, statement by statement
+    let s1 := deleteProposalRun pid s
     if inactiveSettleShapeOk then
-      if !s.params.burnPrevote then refundDeposits pid s1 else burnDeposits pid s1
+      if !s.params.burnPrevote then refundRun pid s1 else burnRun pid s1
     else .ok s1
 
 /-- the variant in which the settlement stands AFTER the outcome switch: the outcome first (queue entry removed, messages
@@ -813,7 +1084,7 @@ def finishTallyLate (passes burn : Bool) (res : Nat × Nat × Nat × Nat) (p : P
       ({ s2 with active := insertQ (p'.votingEnd, pid) s2.active }, p')
     else (s2, { p with status := .rejected, tallyRes := res })
   let settle : Except Err State :=
-    if !(p'.expedited && !passes) then (if burn then burnDeposits pid s3 else refundDeposits pid s3) else .ok s3
+    if !(p'.expedited && !passes) then (if burn then burnRun pid s3 else refundRun pid s3) else .ok s3
   match settle with
   | .error err => .error err
   | .ok s4 => .ok { s4 with props := putProp s4.props p' }
@@ -824,7 +1095,7 @@ def finishTally (passes burn : Bool) (res : Nat × Nat × Nat × Nat) (p : Propo
   if !settleShapeOk && settleAfterOutcome then finishTallyLate passes burn res p pid s else
   let settle : Except Err State :=
     if settleShapeOk then
-      if !(p.expedited && !passes) then (if burn then burnDeposits pid s else refundDeposits pid s) else .ok s
+      if !(p.expedited && !passes) then (if burn then burnRun pid s else refundRun pid s) else .ok s
     else .ok s
   match settle with
   | .error err => .error err
@@ -867,13 +1138,27 @@ def endBlock (stk : Staking) (s : State) : Except Err State :=
   | .error e => .error e
   | .ok s1 => runAll (tallyOne stk) (dueIds s1.active s1.time) s1
 
-/-- `MsgVote` / `MsgVoteWeighted` (SDK): validation of the options, then `AddVote` -/
+/-- one top-level statement of the SDK's `AddVote`: (store, `inVotingPeriod`, error) -/
+def addVoteStep (pid : Nat) (voter : Addr) (opts : List (Opt × Nat)) (acc : State × Bool × Option String) (tag : String) :
+    State × Bool × Option String :=
+  let (s, inVoting, err) := acc
+  if err.isSome then acc else
+  if tag == "inVotingPeriod=VotingPeriodProposals.Has" then
+    -- the `VotingPeriodProposals` index holds exactly the ids of the proposals stored with status voting (`SetProposal`)
+    (s, (match findProp s.props pid with | some p => p.status == .voting | none => false), err)
+  else if tag == "rejectUnlessVoting" then (if !inVoting then (s, inVoting, some "err:inactive") else acc)
+  else if tag == "votesSet" then ({ s with votes := setVote s.votes ⟨pid, voter, opts⟩ }, inVoting, err)
+  else acc
+
+/-- `Keeper.AddVote` of the SDK, statement by statement in source order -/
+def addVoteRun (s : State) (pid : Nat) (voter : Addr) (opts : List (Opt × Nat)) : Except String State :=
+  match sdkAddVoteSteps.foldl (addVoteStep pid voter opts) (s, false, none) with
+  | (_, _, some e) => .error e
+  | (s', _, none) => .ok s'
+
+/-- `MsgVote` / `MsgVoteWeighted` (SDK message server): validation of the options, then `AddVote` -/
 def vote (s : State) (pid : Nat) (voter : Addr) (opts : List (Opt × Nat)) : Except String State :=
-  if !optsValid opts then .error "err:vote" else
-  match findProp s.props pid with
-  | none => .error "err:inactive"
-  | some p =>
-    if p.status == .voting then .ok { s with votes := setVote s.votes ⟨pid, voter, opts⟩ } else .error "err:inactive"
+  if !optsValid opts then .error "err:vote" else addVoteRun s pid voter opts
 
 /-! ## operations -/
 
@@ -908,7 +1193,7 @@ def step (s : State) : Op → State × String
   | .submit who msgs initial exp => ofExcept s (submit s who msgs initial exp)
   | .deposit pid who amt => ofExcept s (deposit s pid who amt)
   | .depositX pid who fx other => ofExcept s (depositX s pid who fx other)
-  | .cancel pid who => ofExcept s (cancel s pid who)
+  | .cancel pid who => ofExcept s (cancelRun s pid who)
   | .vote pid voter opts => ofExcept s (vote s pid voter opts)
   | .spend who amt =>
     if getBal s.bal who < amt then (s, "err:funds") else ({ s with bal := setBal s.bal who (getBal s.bal who - amt) }, "ok")
